@@ -145,8 +145,8 @@ claim("C06",
 claim("C09",
       "Per corpus statement the placeholder text is parsed by the real sqlfluff under ansi and under k other dialects that accept it; all trees "
       "are symbolised with the SAME free names and the real extractors run on each; z3 decides over all namings that sources, targets, "
-      "intermediates and column pairs are identical. Quick: one dialect of each of 4 grammar families per statement; thorough: 8 seeded "
-      "dialects per statement and all 25 on /plain statements. Legacy leg: the placeholder text is parsed by the real sqlparse, its token tree "
+      "intermediates and column pairs are identical. Quick: one dialect of each of 4 grammar families per statement; thorough: 6 seeded "
+      "dialects per statement and all 25 on 40 seeded /plain INSERTs. Legacy leg: the placeholder text is parsed by the real sqlparse, its token tree "
       "symbolised the same way (lx/legacy.py) and the real SqlParseLineageAnalyzer's TABLE lineage compared with the sqlfluff analyzer's "
       "for all namings. Witnesses are replayed on the unmodified library under every dialect / analyzer involved.",
       TRUST + "; nine findings reported as KNOWN-FINDING (exasol CREATE VIEW, clickhouse WHERE subquery, tsql view column list, "
